@@ -19,6 +19,8 @@ class BaseModel:
     """Default model: iterator `next` forks into None / Some(fresh item); named callees can be
     given explicit outcome lists."""
 
+    lazy_adaptors = True
+
     def __init__(self, fork_next=True, overrides=None, item_by_ref=None):
         self.fork_next = fork_next
         self.overrides = overrides or []
@@ -59,6 +61,21 @@ class BaseModel:
             # slice iterators yield references
             if self_ty.startswith("std::slice::Iter") or "btree_set::Iter" in self_ty or "hash_map::Iter" in self_ty:
                 item = ("ref", ("loc", item, ()), False)
+            # a lazily adapted iterator (map / filter / flat_map ... with known closures) driven by a `for` loop: the element is
+            # what the adaptor chain makes of one element of the underlying collection
+            if self.lazy_adaptors and it[0] == "app" and re.search(r"iter::Iterator>::(map|filter_map|filter|flat_map)(::<.*>)?$", str(it[1])) and hasattr(ex, "iter_elements"):
+                base = ("sym", "item@bb%d" % bb)
+                if re.search(r"slice::<impl \[|slice::Iter", S.self_ty_of(it)):
+                    base = ("ref", ("loc", base, ()), False)
+                outs_ = [(none(), None, [(("loc", itkey, ()), ("bool", True))])]
+                pf = path.fork()
+                els = ex.iter_elements(pf, bb, it, base)
+                if els and all(p_ is pf for _, p_ in els) and len(els) == 1 and els[0][0] is not None and els[0][0] != ("dead",):
+                    # (only the simple case — one element, no fork inside the adaptors — is taken over here)
+                    path.events.extend(pf.events[len(path.events):])
+                    for k_, v_ in pf.locals.items():
+                        path.locals.setdefault(k_, v_)
+                    return [outs_[0], (some(els[0][0]), None)]
             return [(none(), None, [(("loc", itkey, ()), ("bool", True))]), (some(item), None)]
         return None
 
